@@ -368,7 +368,7 @@ func renderX(x *dm.XNode) string {
 			b.WriteString(r.Replace(n.Text))
 		}
 		for _, c := range n.Children {
-			w(c, "")
+			w(c, c.NS) // (an element states a namespace of its own only when a check sets one)
 		}
 		b.WriteString("</" + n.Name + ">")
 	}
